@@ -552,8 +552,17 @@ def obj_digest(m):
     return tuple(out)
 
 
+def public_state(m):
+    """the state the property observes: class, M, K and the emitted table"""
+    sym = np.asarray(m.symbols)
+    return (type(m).__name__, repr(m.M), repr(float(m.K)), str(sym.dtype), sym.shape, sym.tobytes())
+
+
 def check_error_paths_and_falsy(chk, lab, kind, M, hist, spec):
-    """(1) a rejected call leaves the object exactly as it was and later results unchanged;
+    """(1) tools/INVALID_CALL_POLICY.md: an invalid call (SNR 'x' / None / list, packet length 'x' /
+    None) is free as a call - what it did is recorded as an outcome.  Afterwards the object must be
+    coherent for its REPORTED state (M = len(symbols), K = log2 M) and valid calls must give exactly
+    the results of a fresh object put into that reported configuration.
     (4) falsy-but-valid arguments (0 dB as 0 / 0.0 / -0.0 / arrays of zeros, packet length 1,
     packet_length None vs omitted) are ordinary values; name/repr are pure observers"""
     base = lab.split("_")[0]
@@ -561,32 +570,42 @@ def check_error_paths_and_falsy(chk, lab, kind, M, hist, spec):
     L = 50
     vals = np.array([-10.0, 0.0, 7.5, 20.0])
     ref = {fn: call_rate(m, fn, vals.copy(), L) for fn in RATE_FNS}
-    before = obj_digest(m)
+    before = public_state(m)
     bad_calls = [(fn, bad, L) for fn in RATE_FNS for bad in ("x", None, [1.0, 2.0])]
     bad_calls += [("PER", vals.copy(), badL) for badL in ("x", None, [2])] + [("SE", vals.copy(), "x")]
     for fn, snr, pl in bad_calls:
         chk.count("eval_error_path_calls")
-        case = dict(spec, what="error_path", fn=fn, snr=repr(snr)[:40], packet_length=repr(pl))
+        d0 = obj_digest(m)
         try:
-            r = call_rate(m, fn, snr, pl)
-        except Exception:  # noqa
-            r = None
-        else:
-            if isinstance(pl, list):
-                r = None        # (1-BER)**[2] broadcasts legitimately: not an invalid call after all
-            else:
-                chk.fail(("error_path", base, "invalid_argument_accepted"), case, observed=r, expected="an exception")
-        if obj_digest(m) != before:
-            chk.fail(("error_path", base, "object_changed_by_failed_call"), case,
-                     observed=[e for e in obj_digest(m) if e not in before][:2], expected="unchanged object")
-            return
+            call_rate(m, fn, snr, pl)
+            how = "accepted"
+        except Exception as e:  # noqa
+            how = "raised:" + type(e).__name__
+        chk.outcome("invalid_call", ("%s(snr=%s, L=%s)" % (fn, type(snr).__name__, type(pl).__name__), how,
+                                     "object_changed" if obj_digest(m) != d0 else "object_unchanged"))
         repr(m), m.name, m.M, m.K
+    # coherence of the reported state
+    case = dict(spec, what="error_path")
+    sym = np.asarray(m.symbols)
+    if sym.ndim != 1 or m.M != sym.size or abs(float(m.K) - math.log2(max(1, sym.size))) > 1e-12:
+        chk.fail(("after_invalid_call", "rates", "M_or_K_differ_from_emitted_table"), case,
+                 observed="M=%r K=%r len(symbols)=%r" % (m.M, m.K, sym.shape), expected="M = len(symbols), K = log2 M")
+    # valid calls against a fresh object in the same reported configuration
+    fresh = build(kind, M, hist)
+    if public_state(m) != before:
+        fresh.setConstellation(sym.copy())
     for fn in RATE_FNS:
-        if not same_bits(call_rate(m, fn, vals.copy(), L), ref[fn]):
-            chk.fail(("error_path", base, "later_results_differ_after_failed_calls"),
-                     dict(spec, what="error_path", fn=fn))
-    if obj_digest(m) != before:
-        chk.fail(("error_path", base, "object_changed_by_name_repr_or_rate_calls"), dict(spec, what="error_path"))
+        g, w = call_rate(m, fn, vals.copy(), L), call_rate(fresh, fn, vals.copy(), L)
+        if not same_bits(g, w):
+            chk.fail(("after_invalid_call", "rates", "valid_call_differs_from_fresh_object"), dict(case, fn=fn),
+                     observed=np.asarray(g).ravel()[:4], expected=np.asarray(w).ravel()[:4])
+    if public_state(m) != before:
+        chk.count("objects_reconfigured_by_invalid_calls")
+        chk.outcome("error_paths", (base, len(bad_calls)))
+        return
+    # name / repr / M / K and valid rate calls are pure observers of the reported state
+    if public_state(m) != before:
+        chk.fail(("rates", base, "reported_state_changed_by_valid_calls"), case)
     # falsy SNR values: all of them are 0 dB
     for fn in RATE_FNS:
         want = float(np.asarray(ref[fn])[1])
@@ -641,7 +660,7 @@ def check_pairs(chk, tier):
                 alone.update({(second, fn, c): call_rate(loneB, fn, contents[c].copy(), L)
                               for fn in RATE_FNS for c in range(3)})
                 objs = {first: A, second: B}
-                dig = {first: obj_digest(A), second: obj_digest(B)}
+                dig = {first: public_state(A), second: public_state(B)}
                 buf = contents[0].copy()
                 rounds = 0
                 for fa, fb in (("SER", "BER"), ("PER", "SE"), ("SE0", "SER")):
@@ -667,7 +686,7 @@ def check_pairs(chk, tier):
                             continue
                         break
                 for nm in (first, second):
-                    if obj_digest(objs[nm]) != dig[nm]:
+                    if public_state(objs[nm]) != dig[nm]:
                         chk.fail(("pair", "object_changed_by_calls"), dict(case, object=nm))
                     kind, M, hist = specs[nm]
                     spec = {"kind": kind, "M": M, "history": hist, "pair": [first, second]}
@@ -852,9 +871,11 @@ def main(chk: Check):
                "int64..int8 arrays must give bit-identical results to the float64 C-contiguous array; float32 "
                "input is compared up to 64*2^-23*kappa relative + 8*2^-23*(L for PER/SE) absolute (the library then computes in single precision: 1-(1-x)**L cancels); "
                "Python lists are not legitimate SNR arguments (dB2Linear evaluates `list / 10.0`)")
-    chk.assume("error paths: SNR 'x' / None / list and packet length 'x' / None must raise and leave the whole "
-               "instance (every attribute, arrays by bytes) and later results unchanged; 0 dB as 0, 0.0, -0.0, "
-               "False, numpy zeros and packet length 1 in five numeric types are ordinary values")
+    chk.assume("invalid calls (SNR 'x' / None / list, packet length 'x' / None) are free as calls "
+               "(tools/INVALID_CALL_POLICY.md): raise/accept and digest change are recorded as outcomes; required "
+               "afterwards: M = len(symbols), K = log2 M, and valid calls bit-identical to a fresh object in the "
+               "same reported configuration; 0 dB as 0, 0.0, -0.0, False, numpy zeros and packet length 1 in five "
+               "numeric types are ordinary values")
     chk.assume("pairs: 10 pairs of live objects (PSK/QAM of the same order, two PSKs, BPSK+QPSK, QPSK vs "
                "PSK(4,pi/4), ...) in both construction orders share one SNR buffer rewritten between rounds; "
                "every order of 4 calls x 3 function pairs, 6 calls deep, against the object's own lone results")
